@@ -178,6 +178,9 @@ def call_ext(I: Interp, name: str, args, kwargs, fr: Frame, node=None):
         return st.fresh_val("field")
     if name.startswith("warnings."):
         return const(None)
+    if name in ("numpy.asarray", "numpy.array", "np.asarray", "np.array"):
+        st.log.append("numpy.asarray(list, dtype=...) modelled as the same sequence of values")
+        return args[0]
     if short == "TypeAdapter" or name.startswith("TypeAdapter"):
         raise Refuse("TypeAdapter")
     if short in ("Discrete",) and "spaces" in name:
